@@ -700,6 +700,10 @@ impl VirtualFileSystem for Memfs {
         drop(guard);
         for entry in entries.min_depth(1).sort_by_name().dirs() {
             let entry = entry?;
+            // Link exclusion: is_dir/is_file of a link are false, so it is not listed as either
+            if entry.is_symlink() {
+                continue;
+            }
             paths.push(entry.path_buf());
         }
 
@@ -736,6 +740,10 @@ impl VirtualFileSystem for Memfs {
         drop(guard);
         for entry in entries.min_depth(1).sort_by_name().files() {
             let entry = entry?;
+            // Link exclusion: is_dir/is_file of a link are false, so it is not listed as either
+            if entry.is_symlink() {
+                continue;
+            }
             paths.push(entry.path_buf());
         }
 
@@ -1193,6 +1201,10 @@ impl VirtualFileSystem for Memfs {
         drop(guard);
         for entry in entries.min_depth(1).max_depth(1).sort_by_name().dirs() {
             let entry = entry?;
+            // Link exclusion: is_dir/is_file of a link are false, so it is not listed as either
+            if entry.is_symlink() {
+                continue;
+            }
             paths.push(entry.path_buf());
         }
         Ok(paths)
@@ -1291,6 +1303,10 @@ impl VirtualFileSystem for Memfs {
         drop(guard);
         for entry in entries.min_depth(1).max_depth(1).sort_by_name().files() {
             let entry = entry?;
+            // Link exclusion: is_dir/is_file of a link are false, so it is not listed as either
+            if entry.is_symlink() {
+                continue;
+            }
             paths.push(entry.path_buf());
         }
         Ok(paths)
